@@ -235,7 +235,8 @@ void h_fileset(void)
 			struct timespec last = H->shared_fs->fs_last;
 			bool elapsed = (G_now.tv_sec - last.tv_sec) > (long)H->reload_interval;
 			bool never = H->reload_interval == MTBL_FILESET_RELOAD_INTERVAL_NEVER && !H->shared_fs->reload_needed;
-			bool due = (H->shared_fs->reload_needed || elapsed) && !never;
+			/* the harness's own memory of a reload_now() that had to be deferred, not the code's flag */
+			bool due = ((H->shared_fs->reload_needed || elapsed) && !never) || reload_now_pending;
 			struct mtbl_iter *it = mtbl_source_iter(mtbl_fileset_source(H));
 			V_ASSERT(it != NULL, "C07: no iterator");
 			V_ASSERT(!last_stale, "C07: new iterator reads from a reader that has been unloaded (destroyed)");
@@ -247,7 +248,6 @@ void h_fileset(void)
 			if (iters_before > 0)
 				V_ASSERT(n_effective_reloads == eff_before, "C07: reload while an iterator is open");
 			if (op == 'a') { V_ASSUME(nia < 3); ia[nia++] = it; } else { V_ASSUME(nib < 3); ib[nib++] = it; }
-			if (iters_before == 0 && n_reload_calls > calls_before) reload_now_pending = 0;
 			break;
 		}
 		case 'x': V_ASSUME(cia < nia); mtbl_iter_destroy(&ia[cia++]); break;
@@ -281,7 +281,12 @@ void h_fileset(void)
 		default: break;
 		}
 		V_ASSERT(!reload_while_iter, "C07: files were loaded/unloaded while an iterator on the shared fileset was open");
-		(void)reload_now_pending;
+		/* a deferred reload_now is honoured once my_fileset_reload runs with no iterator open
+		 * (at the close of the last iterator or at the next source operation) */
+		if (n_reload_calls > calls_before && open_iters_total == 0 && op != 'R' && op != 'Q')
+			reload_now_pending = 0;
+		if ((op == 'R' || op == 'Q') && iters_before == 0)
+			reload_now_pending = 0;
 	}
 	/* tear everything down: iterators first, then the handles in either order */
 	for (size_t k = cia; k < nia; k++) mtbl_iter_destroy(&ia[k]);
